@@ -39,6 +39,9 @@ def handler(payload):
                 s = SDPS(SDPBulkProtocol(dev), case["family"])
                 s.write_file(data)
                 return [s.rom_info.hid_pack_size, int(bool(s.rom_info.no_cmd))]
+            if case.get("prior"):
+                # another protocol object (another device) was configured earlier in this process
+                SDPBulkProtocol(Rec()).configure({"hid_ep1": True, "pack_size": case["prior"]})
             p = SDPBulkProtocol(dev)
             if case["size"] is not None:
                 p.configure({"hid_ep1": True, "pack_size": case["size"]})
